@@ -66,3 +66,105 @@ Theorem C20_other_ops_keep_cache :
     s_cache (fst (s_step s o)) = s_cache s.
 Proof. exact tie_other_ops_keep_cache. Qed.
 Print Assumptions C20_other_ops_keep_cache.
+
+
+(* ==================== second part: the Go functions translated (Props/C20w) ==================== *)
+
+(* Property C20, translation part - the template cache of template_sets.go IS the cache of the set
+   state machine.
+
+   Props/C20.v states the cache laws about the hand-written state machine Model/SetModel.v (s_step).
+   Here the Go functions themselves are read: tools/go2v translates FromCache and CleanCache,
+   statement by statement, into terms of a small Go fragment (gen/SetFuncs.v, regenerated from
+   /repo on every run; syntax Lib/GoStmt.v).  The fragment has an executable meaning
+   (Spec/SpecSetFuncs.v: [set_call prog tags filters ext d m args world] runs set.m(args) over a
+   world that holds the set's fields as an sstate, the mutex as a flag and the trace of what was
+   done to the mutex and the cache map; set.FromFile, set.resolveFilename and the registries are
+   primitives given by the model).  [observe read r] is the next state and the result of a run
+   that ends with the mutex free, in s_step's terms; [trace_of r] its trace;
+   [cache_guarded tr]: Lock only when free, Unlock only when held, the cache map read and written
+   only when held, the mutex free at the end.  [d] bounds the call depth, [ext] stands for every
+   function the fragment does not know (the theorems hold for every ext: it is never reached).
+
+   - C20w_CleanCache: CleanCache(names...) is s_step on OCleanCache names - for every state and
+     every list of names (the loop by induction);
+   - C20w_FromCache: FromCache(name) is s_step on OFromCache name - for every state and name:
+     Debug mode compiles and caches nothing; a hit hands back the cached template; a miss loads the
+     name AS GIVEN (set.FromFile(filename)), caches the template under the RESOLVED name and hands
+     it back, or hands back the error and caches nothing.  Together with Props/C20.v the cache laws
+     there are laws of the Go functions;
+   - C20w_FromCache_locked, C20w_CleanCache_locked: every run touches the cache map between Lock
+     and Unlock only and leaves the mutex free;
+   - C20w_dotdot_name: the instance on which the first run of this tie found the model stale (it
+     loaded the resolved name on a miss; repaired since): the set {d: include "y", y} and the name
+     "d/x/..", resolved "d".  Go (confirmed on the real engine) and the model now both answer
+     with an error - d, loaded as "d/x/..", looks for d/x/y - and cache nothing, while the resolved
+     name itself loads;
+   - C20w_witness: a run of miss, hit and clean on a one-file set, with a name that is not its
+     own resolved form;
+   - C20w_unknown_blocks: a statement outside the fragment blocks the interpretation. *)
+From PV Require Import Model.SetModel Lib.GoStmt Spec.SpecSet Spec.SpecSetFuncs gen.SetFuncs.
+From PV Require Import Tie.C20w.
+From Coq Require Import String.
+Open Scope string_scope.
+
+Theorem C20w_CleanCache : forall tags filters ext d, (2 <= d)%nat -> forall s names,
+  observe read_nothing (set_call go_setfuncs tags filters ext d "CleanCache" [SVStrs names] (world_of s))
+  = Some (s_step s (OCleanCache names)).
+Proof. exact tie_CleanCache. Qed.
+Print Assumptions C20w_CleanCache.
+
+Theorem C20w_CleanCache_locked : forall tags filters ext d, (2 <= d)%nat -> forall s names,
+  match trace_of (set_call go_setfuncs tags filters ext d "CleanCache" [SVStrs names] (world_of s)) with
+  | Some tr => cache_guarded tr = true
+  | None => False
+  end.
+Proof. exact tie_CleanCache_locked. Qed.
+Print Assumptions C20w_CleanCache_locked.
+
+Theorem C20w_FromCache : forall tags filters ext d, (2 <= d)%nat -> forall s name,
+  observe read_template (set_call go_setfuncs tags filters ext d "FromCache" [SVStr name] (world_of s))
+  = Some (s_step s (OFromCache name)).
+Proof. exact tie_FromCache. Qed.
+Print Assumptions C20w_FromCache.
+
+Example C20w_dotdot_name :
+  cache_key dotdot_name = bytes_of_string "d" /\
+  (forall tags filters ext d, (2 <= d)%nat ->
+     observe read_template (set_call go_setfuncs tags filters ext d "FromCache" [SVStr dotdot_name]
+                                     (world_of (s_init dotdot_files)))
+     = Some (with_created (s_init dotdot_files), RErr)) /\
+  s_step (s_init dotdot_files) (OFromCache dotdot_name) = (with_created (s_init dotdot_files), RErr) /\
+  snd (s_step (s_init dotdot_files) (OFromCache (cache_key dotdot_name))) = RTpl 1.
+Proof. exact tie_dotdot_name. Qed.
+Print Assumptions C20w_dotdot_name.
+
+Theorem C20w_FromCache_locked : forall tags filters ext d, (2 <= d)%nat -> forall s name,
+  match trace_of (set_call go_setfuncs tags filters ext d "FromCache" [SVStr name] (world_of s)) with
+  | Some tr => cache_guarded tr = true
+  | None => False
+  end.
+Proof. exact tie_FromCache_locked. Qed.
+Print Assumptions C20w_FromCache_locked.
+
+Example C20w_witness :
+  let s0 := s_init c20w_files in
+  let a := bytes_of_string "a.tpl" in
+  let dot_a := bytes_of_string "./a.tpl" in
+  cache_key dot_a = a /\ cache_key a = a /\
+  exists s1 s2,
+    observe read_template (c20w_run "FromCache" [SVStr dot_a] s0) = Some (s1, RTpl 1) /\
+    s_cache s1 = [(a, 1%N)] /\ s_fetches s1 = 1%N /\
+    trace_of (c20w_run "FromCache" [SVStr dot_a] s0) = Some [EvLock; EvCacheRead; EvCacheWrite; EvUnlock] /\
+    observe read_template (c20w_run "FromCache" [SVStr a] s1) = Some (s1, RTpl 1) /\
+    trace_of (c20w_run "FromCache" [SVStr a] s1) = Some [EvLock; EvCacheRead; EvUnlock] /\
+    observe read_nothing (c20w_run "CleanCache" [SVStrs [bytes_of_string "x/../a.tpl"]] s1) = Some (s2, ROk) /\
+    s_cache s2 = [] /\
+    trace_of (c20w_run "CleanCache" [SVStrs [bytes_of_string "x/../a.tpl"]] s1) = Some [EvLock; EvCacheWrite; EvUnlock].
+Proof. exact tie_c20w_witness. Qed.
+Print Assumptions C20w_witness.
+
+Theorem C20w_unknown_blocks : forall tags filters ext d names w,
+  observe read_nothing (set_call [c20w_unknown_demo] tags filters ext (S d) "CleanCache" [SVStrs names] w) = None.
+Proof. exact tie_setfuncs_unknown_blocks. Qed.
+Print Assumptions C20w_unknown_blocks.
